@@ -28,30 +28,31 @@ pub fn run_loom(run: &Run, prop: &str, budget_secs: u64) -> LoomOut {
             return out;
         }
     };
-    let bodies: Vec<(String, u64, String)> = list
+    let bodies: Vec<(String, u64, String, String)> = list
         .lines()
         .filter_map(|l| l.strip_prefix("BODY "))
         .filter_map(|j| serde_json::from_str::<Value>(j).ok())
-        .map(|v| (v["name"].as_str().unwrap_or("").to_string(), v["threads"].as_u64().unwrap_or(0), v["ops"].as_str().unwrap_or("").to_string()))
+        .map(|v| (v["name"].as_str().unwrap_or("").to_string(), v["threads"].as_u64().unwrap_or(0), v["ops"].as_str().unwrap_or("").to_string(), v["kinds"].as_str().unwrap_or("").to_string()))
         .collect();
     if bodies.is_empty() {
         run.machinery_error("loom binary lists no bodies");
         return out;
     }
     // quick: preemption bound 2. thorough: bound 3, plus unbounded for the 2-thread bodies.
-    let mut jobs: Vec<(String, String, String)> = Vec::new();
-    for (name, threads, ops) in &bodies {
+    // jobs in list order (simplest bodies first), so the first witness per signature is the simplest body
+    let mut jobs: Vec<(String, String, String, String)> = Vec::new();
+    for (name, threads, ops, kinds) in &bodies {
         if run.tier == Tier::Quick {
-            jobs.push((name.clone(), "2".into(), ops.clone()));
+            jobs.push((name.clone(), "2".into(), ops.clone(), kinds.clone()));
         } else {
-            jobs.push((name.clone(), "3".into(), ops.clone()));
+            jobs.push((name.clone(), "3".into(), ops.clone(), kinds.clone()));
             if *threads == 2 {
-                jobs.push((name.clone(), "unbounded".into(), ops.clone()));
+                jobs.push((name.clone(), "unbounded".into(), ops.clone(), kinds.clone()));
             }
         }
     }
     let results = par_map(jobs.len(), |i| {
-        let (name, bound, _) = &jobs[i];
+        let (name, bound, _, _) = &jobs[i];
         std::process::Command::new(&exe)
             .args(["run", name, "--preemptions", bound, "--max-secs", &budget_secs.to_string()])
             // keep glibc from returning/re-mapping the large per-iteration allocations (LruCache pre-sizing)
@@ -61,7 +62,7 @@ pub fn run_loom(run: &Run, prop: &str, budget_secs: u64) -> LoomOut {
             .output()
     });
     for (i, r) in results.into_iter().enumerate() {
-        let (name, bound, ops) = &jobs[i];
+        let (name, bound, ops, kinds) = &jobs[i];
         let o = match r {
             Ok(o) => o,
             Err(e) => {
@@ -86,7 +87,7 @@ pub fn run_loom(run: &Run, prop: &str, budget_secs: u64) -> LoomOut {
                     "unseen_expected_outcomes": v["unseen"], "verdict": v["verdict"]}));
                 if v["verdict"] != "ok" || !o.status.success() {
                     let clause = v["violations"][0]["clause"].as_str().unwrap_or("sched-atomic").to_string();
-                    run.violation_lazy(&format!("{prop}.{clause}"), feats(&[("entry", "loom".into()), ("body", name.clone())]), || {
+                    run.violation_lazy(&format!("{prop}.{clause}"), feats(&[("entry", "loom".into()), ("ops", kinds.clone())]), || {
                         (
                             json!({"engine": "loom", "body": name, "threads_ops": ops, "preemption_bound": bound, "replay": format!("{exe} run {name} --preemptions {bound}"), "report": v}),
                             format!("loom body {name} (preemption bound {bound}): {} of {} schedules violate {clause}: {}", v["violating_iterations"], iters, v["violations"][0]["why"].as_str().unwrap_or("")),
@@ -98,7 +99,7 @@ pub fn run_loom(run: &Run, prop: &str, budget_secs: u64) -> LoomOut {
                 if stderr.contains("exceeded maximum number of branches") || o.status.code() == Some(2) {
                     run.machinery_error(format!("loom body {name}@{bound}: {}", tail(&stderr)));
                 } else {
-                    run.violation_lazy(&format!("{prop}.sched-abort"), feats(&[("entry", "loom".into()), ("body", name.clone())]), || {
+                    run.violation_lazy(&format!("{prop}.sched-abort"), feats(&[("entry", "loom".into()), ("ops", kinds.clone())]), || {
                         (
                             json!({"engine": "loom", "body": name, "threads_ops": ops, "preemption_bound": bound, "replay": format!("{exe} run {name} --preemptions {bound}"), "exit": format!("{:?}", o.status), "stderr_tail": tail(&stderr), "stdout_tail": tail(&stdout)}),
                             format!("loom body {name} (preemption bound {bound}) died ({:?}): deadlock, leak or panic in a schedule — {}", o.status, stderr.lines().find(|l| l.contains("panicked")).unwrap_or("")),
